@@ -137,7 +137,17 @@ ADDED.update({
     "w10_C09": "ChargeGrid reported by C09 too; grids whose accumulated sum drifts upward (3-9/0.15, 0-14/0.4)",
     "w10_C10": "groups with a customised model pKa (custom_model_pkas by parameter file, nucleotide under the shipped file)",
 })
-ROUND = {"C": 1, "w2": 2, "w3": 3, "w4": 4, "w5": 5, "w6": 6, "w7": 7, "w8": 8, "w9": 9, "w10": 10}
+ADDED.update({
+    "w11_C03": "the caller's stream object handed in twice, and one the caller has already read from",
+    "w11_C04": "--protonate-all under the lattice motions (heavy-atom quantities, clause a)",
+    "w11_C05": "a part whose coupled system is coupled only just (1FTJ + bound glutamate) next to another protein",
+    "w11_C06": "the two methotrexates of 4DFR swap chain identifiers (label of a discarded group moves to a kept one)",
+    "w11_C07": "records that end with the coordinates or inside the columns after them",
+    "w11_C16": "alt-loc point mutant whose variant A holds a base with acid partners (3SGB ARG/ALA E 138)",
+    "w11_C17": "occupancy 0.00 on a fifth of the atoms of a complete fragment",
+    "w11_C18": "constant-level TLC invariants that are FALSE ('The invariant of X is equal to FALSE') read as a verdict, not as a machinery failure",
+})
+ROUND = {"C": 1, "w2": 2, "w3": 3, "w4": 4, "w5": 5, "w6": 6, "w7": 7, "w8": 8, "w9": 9, "w10": 10, "w11": 11}
 
 
 def write_design():
